@@ -186,7 +186,9 @@ def behaviour(run, drv, kinds, meta):
     # (+ members whose tensordict-side result is `None` when no leaf qualifies: grad / data / zero_grad / requires_grad_ / detach)
     t1_names = {"cat_from_tensordict", "stack_from_tensordict", "cat_tensors", "stack_tensors", "to_struct_array",
                 "grad", "data", "zero_grad", "requires_grad_", "detach", "detach_", "clone", "to_dict", "to_tensordict", "values", "items",
-                "sum", "mean", "exp", "__add__", "__neg__", "reshape", "view", "flatten", "unbind", "split", "chunk", "numel", "numpy"}
+                "sum", "mean", "exp", "__add__", "__neg__", "__or__", "__xor__", "__and__", "__invert__", "__eq__", "__ne__", "__ge__", "__lt__",
+                # (the boolean operators only succeed on a class without str payloads: `'a' | 'b'` raises inside NonTensorData)
+                "reshape", "view", "flatten", "unbind", "split", "chunk", "numel", "numpy"}
     if run.tier == "thorough" or os.environ.get("VERIF_C15_T1_FULL"):
         # every member except the constructors whose candidates name D1's fields (`s`, `n`): those keys are foreign to T1
         t1_names = {n for n, _ in api} - {"from_dataclass", "from_dict", "from_dict_instance", "from_namedtuple", "fromkeys"}
@@ -279,6 +281,11 @@ def behaviour(run, drv, kinds, meta):
                     continue
                 a, b = B.normalise(name, r_tc, r_td)
                 why = B.same_result(name, a, b, tcA, tdB, fields, values=name not in B.UNINIT and name not in B.ADDRESSES)
+                if why is None and name == "to_dict" and kA.get("retain_none") is False and isinstance(r_tc, dict):
+                    # (the normalisation above drops the None placeholders the tensorclass adds: here they must not be there at all)
+                    nones = sorted(k for k, v in r_tc.items() if v is None)
+                    if nones:
+                        why = f"to_dict(retain_none=False) still lists the None-valued fields {nones}"
                 if why is None and B.canon(tcA._tensordict) != B.canon(tdB):
                     why = "side effects on the receiver differ"
                 if why is None:
@@ -355,6 +362,7 @@ def main():
     import c15_streams as S
     guarded(run, "torch_functions", S.torch_functions, run, drv, ["D1", "S1"] if run.tier == "quick" else ["D1", "S1", "Fz", "Ac", "Nc", "Sh", "D2"])
     guarded(run, "torch_mixed", S.torch_mixed, run, ["D1", "S1"] if run.tier == "quick" else ["D1", "S1", "Fz", "Ac", "Nc", "Sh", "D2"])
+    guarded(run, "property_setters", S.property_setters, run)
     guarded(run, "typed_fields", S.typed_fields, run, drv)
     guarded(run, "items_stream", S.items_stream, run, drv)
     guarded(run, "zero_d_setitem", S.zero_d_setitem, run)
